@@ -115,6 +115,27 @@ def special_circuits():
     Line(c, (lt, 0), (g2, 0))
     Line(c, g2, o)
     yield c, ('special', 'latch-enable-from-port')
+    # bench style: ports are forks; an OUTPUT signal also feeds further gates and a flip-flop
+    c = Circuit('out_read_inside')
+    a, b, x, y = Node(c, 'a'), Node(c, 'b'), Node(c, 'x'), Node(c, 'y')
+    for n in (a, b, x, y):
+        c.io_nodes.append(n)
+    g1 = Node(c, 'x', 'NAND')
+    Line(c, g1, x)
+    Line(c, a, g1); Line(c, b, g1)
+    g2 = Node(c, 'y', 'XOR')
+    Line(c, g2, y)
+    Line(c, x, g2); Line(c, a, g2)
+    ff = Node(c, 'q', 'DFF')
+    fq = Node(c, 'q')
+    Line(c, ff, fq)
+    Line(c, y, ff)
+    g3 = Node(c, 'z', 'AND')
+    fz = Node(c, 'z')
+    c.io_nodes.append(fz)
+    Line(c, g3, fz)
+    Line(c, fq, g3); Line(c, x, g3)
+    yield c, ('special', 'output-fork-read-inside')
     # fork chains three deep: stem read by a gate, deep branch read by a later gate and captured by an output
     for depth in (2, 3, 4):
         c = Circuit(f'chain{depth}')
